@@ -216,7 +216,8 @@ impl<'a, M: Model> Walker<'a, M> {
             }
         }
         // a resumed frontier state was registered as visited when it was put on the frontier
-        if let (false, Some(k)) = (resumed, self.m.key(&s, hist)) {
+        let k0 = self.m.key(&s, hist);
+        if let (false, Some(k)) = (resumed, k0) {
             if !self.visited.insert(k) {
                 self.out.count("engine_merged_into_visited_state");
                 return;
@@ -231,6 +232,21 @@ impl<'a, M: Model> Walker<'a, M> {
         self.out.set_history(hist_json(hist));
         self.out.states += 1;
         self.m.check(&mut s, hist, &mut self.out);
+        // self-check 1 (on a key-selected eighth of the states): the oracles' probes left the
+        // state as it was, so the first child starts from the same state as the replayed ones
+        if let Some(k) = k0 {
+            if k & 7 == 0 {
+                if self.m.key(&s, hist) != Some(k) {
+                    self.out.violation(
+                        "machinery:probes-changed-state",
+                        None,
+                        json!({"note": "the state key after the oracle's probes differs from the key before them"}),
+                    );
+                } else {
+                    self.out.count("engine_selfcheck_probes_left_state_unchanged");
+                }
+            }
+        }
         let evs = self.m.enabled(&s, hist);
         if evs.is_empty() {
             self.out.leaves += 1;
@@ -245,7 +261,23 @@ impl<'a, M: Model> Walker<'a, M> {
             let mut st = match cur.take() {
                 Some(st) => st,
                 None => match self.replay(hist) {
-                    Some(st) => st,
+                    Some(st) => {
+                        // self-check 2: reset + replay reproduces the identical state
+                        if let Some(k) = k0 {
+                            if (k >> 3) & 7 == 0 {
+                                if self.m.key(&st, hist) != Some(k) {
+                                    self.out.violation(
+                                        "machinery:replay-not-identical",
+                                        None,
+                                        json!({"note": "reset + replay of the history gave a state with a different key"}),
+                                    );
+                                } else {
+                                    self.out.count("engine_selfcheck_replays_identical");
+                                }
+                            }
+                        }
+                        st
+                    }
                     None => {
                         self.out.violation(
                             "machinery:replay-diverged",
